@@ -15,7 +15,7 @@ namespace Frappy.Klass
 /-- `Enum(parent, **more)`: the members of `base`, then those of `more` that are not there yet -/
 def addCodes (base : List (String × Int)) : List (String × Int) → List (String × Int)
   | [] => base
-  | m :: rest => addCodes (if base.contains m then base else base ++ [m]) rest
+  | m :: rest => addCodes (if m ∈ base then base else base ++ [m]) rest
 
 /-- the datatype object `StatusType(...)` builds: `TupleOf(EnumType(enum), StringType())` -/
 def statusTree (parent more : List (String × Int)) : DTree :=
